@@ -9,7 +9,9 @@ written with tofile(), and object / structured-with-object dtypes whose .npy bod
 Python's buffered writer -, re-dump, dump of a packed key,
 remove, remove_many, update_pack, resave_pack, cleanup, re-opened stores; the same with <jugdir>/tempfiles on another
 filesystem, where every rename out of it fails with EXDEV: the operation must raise and no final name may be opened,
-truncated, written or bound by anything but a rename; dumps that let an EXCEPTION through in
+truncated, written or bound by anything but a rename; an fsync of a file failing once with EIO (Linux: the data written
+before it is lost for good, a later fsync without new writes syncs nothing - rendered so in the trace and in the crash
+simulator): the operation must fail or write everything again; dumps that let an EXCEPTION through in
 the middle of the write - values whose pickling raises after part of the output was produced, a KeyboardInterrupt
 injected at a primitive boundary - on new keys and on keys that hold a result: dump() must raise, no final name
 may change, the trace must still be accepted) are recorded by the os-level
@@ -346,6 +348,11 @@ def gen_scenario(rng, nops, big=False):
         else:
             compress = rng.random() < 0.5
             ops.append({'op': 'reopen', 'compress': compress})
+    for op in ops:
+        # the first (sometimes the second) fsync of a file fails once with EIO during this operation
+        if op['op'] in ('dump', 'update_pack', 'resave_pack') and 'raise_at' not in op and rng.random() < 0.05 \
+                and (op['op'] != 'dump' or expected_failure(op['val']) is None):
+            op['fsync_eio'] = rng.choice([0, 0, 0, 1])
     if rng.random() < 0.12 and len(ops) > 5:
         # from some point on <jugdir>/tempfiles is on another filesystem: every rename out of it fails with EXDEV
         at = rng.randrange(3, len(ops) - 1)
@@ -466,7 +473,25 @@ def fixed_scenarios(thorough):
                   {'op': 'dump', 'key': K(113), 'val': ['arr', 'uint8', [50], 6, 'C']},
                   {'op': 'exdev', 'on': False},
                   {'op': 'dump', 'key': K(113), 'val': ['int', 7]}, {'op': 'update_pack'}]}
-    return [s1, s2, s3, s4, s5, s6, s7]
+    # an fsync of a file fails ONCE with EIO (a later fsync of the same file succeeds).  Linux reports the write-back error
+    # once and marks the pages clean: what was written before the failure never reaches the disk, whatever a second
+    # fsync says.  The operation must fail (or write everything again): nothing un-synced may be renamed onto a final name
+    s8 = {'name': 'fsync fails once with EIO', 'compress': False,
+          'ops': [{'op': 'dump', 'key': K(120), 'val': ['bytes', 1, 400]}, {'op': 'dump', 'key': K(121, 'ab'), 'val': ['int', 2]},
+                  {'op': 'dump', 'key': K(122), 'val': ['bytes', 2, 20000]}, {'op': 'update_pack'},
+                  {'op': 'dump', 'key': K(123), 'val': ['nested', 3, 200], 'fsync_eio': 0},                 # new key, pickle
+                  {'op': 'dump', 'key': K(122), 'val': ['bytes', 4, 50000], 'fsync_eio': 0},               # key holding a result
+                  {'op': 'dump', 'key': K(121, 'ab'), 'val': ['str', 5, 300], 'fsync_eio': 0},             # key inside the pack: the pack's fsync
+                  {'op': 'dump', 'key': K(120), 'val': ['bytes', 6, 100], 'fsync_eio': 1},                 # key inside the pack: the file's fsync
+                  {'op': 'dump', 'key': K(124), 'val': ['arr', 'float64', [40], 7, 'C'], 'fsync_eio': 0},  # raw .npy: falls back to encode_to
+                  {'op': 'dump', 'key': K(125), 'val': ['oarr', 8, [5], 5, 'C'], 'fsync_eio': 1},
+                  {'op': 'dump', 'key': K(126), 'val': ['int', 9]},
+                  {'op': 'update_pack', 'fsync_eio': 0}, {'op': 'resave_pack', 'fsync_eio': 0},
+                  {'op': 'remove', 'key': K(122), 'fsync_eio': 0},
+                  {'op': 'reopen', 'compress': True},
+                  {'op': 'dump', 'key': K(124), 'val': ['arr', 'int32', [9], 10, 'C'], 'fsync_eio': 0},
+                  {'op': 'dump', 'key': K(126), 'val': ['int', 11]}, {'op': 'update_pack'}]}
+    return [s1, s2, s3, s4, s5, s6, s7, s8]
 
 
 def scenario_keys(scn):
@@ -656,6 +681,8 @@ def do_op(box, op, jd):
     t = op['op']
     if t == 'dump':
         expect = (expected_failure(op['val']) or ()) + ((InjectedInterrupt,) if 'raise_at' in op else ())
+        if 'fsync_eio' in op:
+            expect = expect + (OSError,)
         if box[1:] and box[1]:
             # EXDEV at the publishing rename; the raw .npy branch reports it as ValueError ('... closed file': its
             # `except OSError` handler runs after the file was closed) - what matters is that dump() raises
@@ -669,7 +696,8 @@ def do_op(box, op, jd):
         except BaseException as e:
             if not isinstance(e, expect) or (type(e) is KeyboardInterrupt and KeyboardInterrupt not in expect):
                 raise
-            if isinstance(e, OSError) and OSError not in (expected_failure(op['val']) or ()) and e.errno != errno.EXDEV:
+            if (isinstance(e, OSError) and OSError not in (expected_failure(op['val']) or ())
+                    and e.errno not in ((errno.EXDEV, errno.EIO) if 'fsync_eio' in op else (errno.EXDEV,))):
                 raise
             if (isinstance(e, ValueError) and ValueError not in (expected_failure(op['val']) or ())
                     and 'closed file' not in str(e)):
@@ -682,12 +710,13 @@ def do_op(box, op, jd):
             return 'raised'
     elif t == 'exdev':
         return None                          # handled by record(): the interposer starts / stops failing renames
-    elif box[1:] and box[1] and t in ('remove', 'update_pack', 'resave_pack'):
-        # tempfiles/ is on another filesystem: the operation may fail with EXDEV at its publishing rename
+    elif ((box[1:] and box[1]) or 'fsync_eio' in op) and t in ('remove', 'update_pack', 'resave_pack'):
+        # tempfiles/ is on another filesystem: the operation may fail with EXDEV at its publishing rename;
+        # an fsync of a file fails with EIO: the operation must fail with it
         try:
             {'remove': lambda: s.remove(bx(op['key'])), 'update_pack': s.update_pack, 'resave_pack': s.resave_pack}[t]()
         except OSError as e:
-            if e.errno != errno.EXDEV:
+            if e.errno not in ((errno.EXDEV,) if 'fsync_eio' not in op else (errno.EXDEV, errno.EIO)):
                 raise
             file_store(jd).remove_locks()
             box[0] = file_store(jd, compress_numpy=s.compress_numpy)
@@ -764,12 +793,19 @@ def record(scn, root, reader_stride=1, upto=None, only_reader_op=None):
                     raise InjectedInterrupt(point)
             ip.hook = hook if ((reader_stride or raise_at is not None) and op['op'] != 'reopen') else None
             o.raised = False
+            ip.fsync_count, ip.fsync_fail_at = 0, op.get('fsync_eio')
+            import time as _time
+            real_sleep = _time.sleep
+            if 'fsync_eio' in op:
+                _time.sleep = lambda _t: None         # (code that waits before trying again: do not really wait)
             try:
                 o.raised = do_op(box, op, jd) == 'raised'
             except Exception as e:
                 rec.failed = (i, '%s: %s' % (type(e).__name__, str(e)[:200]))
             finally:
                 ip.hook = None
+                ip.fsync_fail_at = None
+                _time.sleep = real_sleep
             ip.sync_now()
             o.b = len(ip.events)
             o.listing = ip.listing() if os.path.isdir(jd) else {}
@@ -939,8 +975,11 @@ def render(rec):
             fsops.append(('OpenTrunc', nm.name(ev['name']), ino))
         elif t == 'write':
             fsops.append(('WriteData', ev['ino'], ev['cid']))
+        elif t == 'fsync_failed':
+            pass            # the model is told nothing: the data stays un-synced
         elif t == 'fsync':
-            fsops.append(('Fsync', ev['ino']))
+            if ev['ino'] not in vol.poisoned:      # (a sync that follows a failed one without new data syncs nothing)
+                fsops.append(('Fsync', ev['ino']))
         elif t == 'close':
             fsops.append(('Close', ev['ino']))
         elif t == 'fsyncdir':
@@ -1509,15 +1548,16 @@ def interposer_seq(rec):
 
 def without_injected_faults(scn):
     """The scenario as an un-instrumented process can run it: the faults that only the interposer can inject - a rename
-    failing with EXDEV ('exdev' ops), a signal at a primitive boundary ('raise_at') - are raised BEFORE the system call
+    failing with EXDEV ('exdev' ops), a signal at a primitive boundary ('raise_at'), an fsync failing with EIO
+    ('fsync_eio') - are raised BEFORE the system call
     is made, so the kernel (and strace) never sees what the recorded trace shows there; they are taken out on both sides.
     Values whose pickling raises stay: that exception is real in both processes."""
     ops = []
     for op in scn['ops']:
         if op['op'] == 'exdev':
             continue
-        if 'raise_at' in op:
-            op = dict((k, v) for k, v in op.items() if k != 'raise_at')
+        if 'raise_at' in op or 'fsync_eio' in op:
+            op = dict((k, v) for k, v in op.items() if k not in ('raise_at', 'fsync_eio'))
         ops.append(op)
     return dict(scn, ops=ops)
 
@@ -1589,7 +1629,7 @@ def run(ck):
     ]
     rng = ck.rng
     scns = fixed_scenarios(thorough)
-    for _ in range(ck.n(16, 240)):
+    for _ in range(ck.n(15, 240)):
         scns.append(gen_scenario(rng, rng.randint(8, 18), big=thorough and rng.random() < 0.1))
     cap = ck.n(40, 512)
     max_points = ck.n(14, 400)
@@ -1642,7 +1682,8 @@ def run(ck):
                 ck.distinct(shape, len(shape[1]) > 0)
                 if o.op['op'] == 'dump' and (o.raised or expected_failure(o.op['val']) is not None):
                     how = (('value whose pickling raises %s' % o.op['val'][4]) if expected_failure(o.op['val']) is not None else
-                           'signal at a primitive boundary' if 'raise_at' in o.op else 'EXDEV at the publishing rename')
+                           'signal at a primitive boundary' if 'raise_at' in o.op else
+                           'fsync fails once with EIO' if 'fsync_eio' in o.op else 'EXDEV at the publishing rename')
                     ck.count('dump that lets an exception through (%s): %s' % (
                         how, 'raised' if o.raised else 'completed'))
                     ck.count('dump that lets an exception through: key %s' % ('held a result' if o.op['key'] in o.pre else 'was new'))
